@@ -25,6 +25,13 @@ def run(P: Program, rep: Report):
                   "the newline is only matched under an assertion (e.g. not preceded by a backslash): a line ending in a "
                   "backslash is not counted and all later start_line values are one too small")
 
+    for i_, al in enumerate(rx.alts):
+        is_newline_alt = al.fixed_single_char() and al.items[0].cs.is_finite() and al.items[0].cs.chars == {"\n"}
+        if not is_newline_alt:
+            rep.check(not al.can_consume("\n"), "C03.R1", f"regex:alt{i_}:no-newline-inside", rx.loc,
+                      f"the alternative {al!r} of the mark regex can consume a newline: a line break swallowed by another mark (e.g. between a block "
+                      f"type and its brace) is never counted, all later start lines are too small")
+
     rep.rule("C03.R2", "line counter ownership: the counter is written only at its initialisation (-1, paired with exactly one "
                        "prepended newline) and by +1 per newline mark inside _next_mark; newline marks never reach the scanners")
     cls = P.cls("splitter", "Splitter")
